@@ -39,12 +39,12 @@ def _get_schema_check():
     return _schema_check
 
 
-def _bag_check(codemod: str | None):
-    if not codemod:
+def _bag_check(expect: dict | None):
+    if not expect:
         return None
     from . import deltas
 
-    return deltas.checker(codemod)
+    return deltas.checker(expect)
 
 
 def write_tree(root: Path, files: dict) -> None:
@@ -134,7 +134,7 @@ def _run_scenario(sc: dict) -> dict:
                 site_lines=step.get("site_lines"),
                 site_findings=step.get("site_findings"),
                 observe=bool(step.get("observe")),
-                bag_check=_bag_check(step.get("bag_codemod")),
+                bag_check=_bag_check(step.get("bag_expect")),
                 outside_unchanged=(outside_after == outside_before) and not stray,
                 schema_check=_get_schema_check(),
             )
